@@ -127,6 +127,8 @@ class Report:
         self.bounded_sections.append(section)
         for f in section.get('failures', []):
             rep = dict(f)
+            rep.pop('_known', None)
+            f.pop('_known', None)
             if section.get('native_entry'):
                 rep['native_entry'] = section['native_entry']
                 rep['native_payload'] = {'replay': f}
